@@ -28,6 +28,29 @@ def skip_class(syn):
     raise AnchorError("lexer skip class not found")
 
 
+def skip_alphabet(syn):
+    """Characters that can start a run the iso lexer skips: the members of every `logos::skip` class, and the first
+    literal character of any other skipped pattern (e.g. `#` of a comment rule)."""
+    out = []
+    n = 0
+    for it in syn["items"]:
+        if it["kind"] == "enum" and it["path"].endswith("IsographLangTokenKind"):
+            for v in it["variants"]:
+                for a in v["attrs"]:
+                    if a["name"] in ("regex", "token") and len(a["args"]) >= 2 and isinstance(a["args"][1], dict) and "skip" in a["args"][1].get("expr", ""):
+                        n += 1
+                        rx = a["args"][0]
+                        if re.fullmatch(r"\[(.*)\]\+?", rx) and a["name"] == "regex":
+                            out += class_chars(rx)
+                        elif rx and rx[0] not in "[(.\\":
+                            out.append(rx[0])
+                        else:
+                            raise AnchorError("cannot determine the first characters of skipped pattern %r" % rx)
+    if not n:
+        raise AnchorError("lexer skip rules not found")
+    return sorted(set(out))
+
+
 def class_chars(rx):
     m = re.fullmatch(r"\[(.*)\]\+?", rx)
     if not m:
@@ -140,7 +163,7 @@ def stripped_language_gaps(entry, unions, conds, skip, maxlen=3):
 def run(cx):
     syn = cx.syn()
     fb = cx.mir("artifact_content", "isograph_lang_parser")
-    skip = class_chars(skip_class(syn))
+    skip = skip_alphabet(syn)
     cx.floor("R24.whitespace-table characters skipped by the iso lexer", len(skip), 3)
     # the whitespace-stripping type in the generated text, read as an automaton
     T = templates.Templates(syn, os.environ.get("VERIF_REPO", "/repo"))
